@@ -66,7 +66,7 @@ pub fn register(l: &mut Vec<Obl>) {
         });
     macro_rules! hexcone_rt {
         ($m:ident, $sfx:literal) => {{
-            $m!(l; concat!("c01_rgb_hsv_rgb", $sfx), "C01", Tier::Quick,
+            $m!(l; concat!("c01_rgb_hsv_rgb", $sfx), "C01", Tier::Thorough,
                 "RGB -> HSV -> RGB and RGB -> HSL -> RGB return the colour within 1e-9 for every RGB in [0,1]^3",
                 ["<Hsv<S,T> as FromColorUnclamped<Rgb<S,T>>>", "<Rgb<S,T> as FromColorUnclamped<Hsv<S,T>>>", "<Hsl<S,T> as FromColorUnclamped<Rgb<S,T>>>", "<Rgb<S,T> as FromColorUnclamped<Hsl<S,T>>>"],
                 [var("r", 0.0, 1.0), var("g", 0.0, 1.0), var("b", 0.0, 1.0)];
